@@ -196,6 +196,8 @@ class Machine:
                     for f in decl[1:]:
                         if isinstance(f, list) and f and f[0] == Sym("define"):
                             self.do_define(f, env)
+                        elif isinstance(f, list) and f and f[0] == Sym("define-syntax"):
+                            continue        # a macro local to the library (the generators never use it): it binds nothing an importer can see
                         else:
                             self.ev(f, env)
             inst = {}
